@@ -70,87 +70,107 @@ fn make_pool(o: &Oracle, rng: &mut Rng, size: usize) -> Vec<Item> {
     pool
 }
 
-/// Ranking entry points of Five / Six / Seven interleaved on a recurring pool.
-pub fn ranking_history(o: &Oracle, seed: u64, rep: &Report, rounds: u64) {
+/// Ranking entry points of Five / Six / Seven interleaved on a recurring pool.  Every kind of call is MADE
+/// whatever property is being checked (the calls are each other's history); a result is JUDGED only when the
+/// statement of property `id` covers it:
+///   C01 values of valid five-card hands (all six entry points)      C02 values of valid six/seven-card hands
+///   C03 the reported hand re-ranks to the reported value            C04 validated = unvalidated (valid) / 0 (not valid)
+///   C05 card-or-blank hands return normally; a five with a blank is 0
+///   C06 the rank record carries the value and is the conversion of it
+///   C08 value of the shifted hand = value of the hand               C13 the four predicates of valid fives
+pub fn ranking_history(o: &Oracle, id: &str, seed: u64, rep: &Report, rounds: u64) {
     let mut rng = Rng::new(seed ^ 0x415);
     let pool = make_pool(o, &mut rng, 240);
     let mut n = 0u64;
+    let mut judged = 0u64;
     for _ in 0..rounds {
         let it = &pool[rng.below(pool.len() as u64) as usize];
         let h = Hand::from_words(&it.words);
         let which = rng.below(12);
-        let blank5 = it.words.len() == 5 && it.words.contains(&0);
+        let len = it.words.len();
+        let blank5 = len == 5 && it.words.contains(&0);
+        let op = if len == 5 { "rank5" } else { "rankn" };
+        n += 1;
         if which == 11 {
             // the four predicates (C13) on valid five-card items, against the class of the cards
-            if it.valid && it.words.len() == 5 {
+            if it.valid && len == 5 {
                 let cls = &o.classes[it.value as usize - 1];
                 let f = Five::from([it.words[0], it.words[1], it.words[2], it.words[3], it.words[4]]);
                 let e = (cls.flush, cls.category == "Straight" || cls.category == "StraightFlush", cls.category == "StraightFlush", cls.ranks == [12, 3, 2, 1, 0]);
                 let got = guarded(|| (f.is_flush(), f.is_straight(), f.is_straight_flush(), f.is_wheel()));
-                if got != Ok(e) {
-                    rep.violation(json!({"property": rep.property, "why": "in a long single-threaded interleaving on a recurring pool of hands, the flush / straight / straight-flush / wheel predicates of a hand disagreed with its category: the result depends on the calls made before",
-                        "event": {"op": "rank5", "words": hilo_arr(&it.words)}, "expected": {"flush": e.0, "straight": e.1, "straight_flush": e.2, "wheel": e.3}, "note": "history-dependent"}));
-                    break;
+                if id == "C13" {
+                    judged += 1;
+                    if got != Ok(e) {
+                        rep.violation(json!({"property": rep.property, "why": "in a long single-threaded interleaving on a recurring pool of hands, the flush / straight / straight-flush / wheel predicates of a hand disagreed with its category: the result depends on the calls made before",
+                            "event": {"op": "rank5", "words": hilo_arr(&it.words)}, "expected": {"flush": e.0, "straight": e.1, "straight_flush": e.2, "wheel": e.3}, "note": "history-dependent"}));
+                        break;
+                    }
                 }
             }
-            n += 1;
             continue;
         }
-        let bad: Option<(&str, Value)> = match guarded(|| match which {
+        // make the call
+        let got: Result<i64, String> = guarded(|| match which {
             9 | 10 => {
-                // the public product-search helper, with keys related to the pool: 0 (any hand with a blank),
-                // the product of this hand, or a random key; it must return normally (kind 3: no value check)
+                // the public product-search helper, with keys related to the pool
                 let key = match rng.below(3) {
                     0 => 0usize,
-                    1 => if it.words.len() == 5 { Five::from([it.words[0], it.words[1], it.words[2], it.words[3], it.words[4]]).multiply_primes() } else { 48 },
+                    1 => if len == 5 { Five::from([it.words[0], it.words[1], it.words[2], it.words[3], it.words[4]]).multiply_primes() } else { 48 },
                     _ => (rng.next() >> rng.below(64)) as usize,
                 };
                 let _ = Five::find_in_products(key);
-                (0, 3)
+                0
             }
-            0 => (rank_value(&h) as i64, 0i64),
-            1 => (hand_rank(&h).value as i64, 0),
-            2 => (rank_value_and_hand(&h).value as i64, 0),
-            3 => (rank_value_validated(&h) as i64, 1),
-            4 => (hand_rank_validated(&h).value as i64, 1),
-            5 => (if it.words.len() == 5 { ckc_rs::evaluate::five_cards([it.words[0], it.words[1], it.words[2], it.words[3], it.words[4]]) as i64 } else { rank_value_validated(&h) as i64 }, 1),
-            6 => {
-                // rank of the suit-shifted hand equals the rank of the hand
-                (rank_value(&h.shift_suit()) as i64, 0)
-            }
+            0 => rank_value(&h) as i64,
+            1 => hand_rank(&h).value as i64,
+            2 => rank_value_and_hand(&h).value as i64,
+            3 => rank_value_validated(&h) as i64,
+            4 => hand_rank_validated(&h).value as i64,
+            5 => if len == 5 { ckc_rs::evaluate::five_cards([it.words[0], it.words[1], it.words[2], it.words[3], it.words[4]]) as i64 } else { rank_value_validated(&h) as i64 },
+            6 => rank_value(&h.shift_suit()) as i64,
             7 => {
-                // the reported hand re-ranks to the reported value
+                // the reported hand re-ranks to the reported value (1 = yes)
                 let r = rank_value_and_hand(&h);
-                (Five::from(r.witness).hand_rank_value() as i64, 2)
+                (Five::from(r.witness).hand_rank_value() == r.value) as i64
             }
             _ => {
                 let hr = hand_rank(&h);
-                (if hr == HandRank::from(hr.value) { hr.value as i64 } else { -2 }, 0)
+                let hv = hand_rank_validated(&h);
+                (hr == HandRank::from(hr.value) && hv == HandRank::from(hv.value)) as i64
             }
-        }) {
-            Err(_) => Some(("unwound", json!(-1))),
-            Ok((got, kind)) => {
-                let exp: Option<i64> = match kind {
-                    3 => None,
-                    1 => Some(if it.valid { it.value as i64 } else { 0 }),
-                    _ => {
-                        if it.valid {
-                            Some(it.value as i64)
-                        } else if blank5 && kind == 0 && which != 6 {
-                            Some(0) // C05: a five-slot hand that contains a blank is never given a real rank
-                        } else {
-                            None // other repeated-card / blank hands: only "returns normally" is strict
-                        }
+        });
+        // what the statement of `id` says about it (None: nothing)
+        let expected: Option<i64> = match (id, which) {
+            ("C01", 0..=5) if it.valid && len == 5 => Some(it.value as i64),
+            ("C02", 0..=5) if it.valid && len >= 6 => Some(it.value as i64),
+            ("C03", 7) if it.valid => Some(1),
+            ("C04", 3..=5) => {
+                if it.valid {
+                    // the same value as unvalidated ranking (asked now), which is not 0 for a hand
+                    match guarded(|| rank_value(&h)) {
+                        Ok(v) if v != 0 => Some(v as i64),
+                        _ => Some(-3),
                     }
-                };
-                match exp {
-                    Some(e) if e != got => Some(("value", json!(got))),
-                    _ => None,
+                } else {
+                    Some(0)
                 }
             }
+            ("C05", 0..=5) if blank5 => Some(0),
+            ("C06", 1) | ("C06", 4) if it.valid => Some(it.value as i64),
+            ("C06", 8) => Some(1),
+            ("C08", 6) if it.valid => guarded(|| rank_value(&h)).ok().map(|v| v as i64),
+            _ => None,
         };
+        let unwound_matters = expected.is_some() || (id == "C05" && it.card_or_blank);
+        let bad = match (&got, expected) {
+            (Err(_), _) if unwound_matters => Some(("unwound", json!(-1))),
+            (Ok(g), Some(e)) if *g != e => Some(("value", json!(g))),
+            _ => None,
+        };
+        if expected.is_some() || (id == "C05" && it.card_or_blank) {
+            judged += 1;
+        }
         if let Some((what, got)) = bad {
-            let op = if it.words.len() == 5 { "rank5" } else { "rankn" };
             rep.violation(json!({"property": rep.property, "why": format!("in a long single-threaded interleaving of ranking calls on a recurring pool of hands, entry point #{} gave {} ({}) for a hand whose value is {}: the result depends on the calls made before", which, got, what, it.value),
                 "event": {"op": op, "words": hilo_arr(&it.words)}, "expected": if it.valid { json!({"value": it.value, "v_validated": it.value}) } else { json!({"v_validated": 0}) },
                 "note": "history-dependent: the single call may pass on replay; see `why`"}));
@@ -158,15 +178,34 @@ pub fn ranking_history(o: &Oracle, seed: u64, rep: &Report, rounds: u64) {
                 break;
             }
         }
-        let _ = it.card_or_blank;
-        n += 1;
     }
     rep.eval(n);
-    rep.space("history probe: one thread, 320 recurring five/six/seven-slot hands (valid, blank, repeated; shuffled), random interleaving of nine ranking entry points", false, n);
+    rep.space(&format!("history probe: one thread, 320 recurring five/six/seven-slot hands (valid, blank, repeated; shuffled), random interleaving of twelve kinds of ranking call; {} of the calls fall under this property's statement and were judged", judged), false, n);
 }
 
 /// Card-level and set-level pure functions on a recurring pool of words / sets, interleaved.
-pub fn words_history(o: &Oracle, seed: u64, rep: &Report, rounds: u64) {
+/// Every kind of call is made whatever property is being checked; a result is judged only when the statement of
+/// property `id` covers that kind of call (see `owned` below).
+pub fn words_history(o: &Oracle, id: &str, seed: u64, rep: &Report, rounds: u64) {
+    // kind of call -> the properties whose statement covers it
+    let owned = |which: u64| -> bool {
+        let owners: &[&str] = match which {
+            0 => &["C10", "C04"],   // card recogniser
+            1 | 3 => &["C14"],      // word <-> bit
+            2 => &["C08"],          // card shift
+            4 | 5 | 15 => &["C15"], // count / validity, peel, fold-in / has / single
+            6 | 9 => &["C17"],      // Chen score and helpers
+            7 | 12 => &["C20"],     // strip / marks (cards and marked cards only)
+            8 => &["C16"],          // two-card hand from a set
+            10 => &["C18"],         // deck access
+            11 => &["C10", "C20"],  // accessors on a card / a marked card
+            13 => &["C10"],         // construction
+            14 => &["C07"],         // comparison of converted ranks
+            _ => &[],
+        };
+        owners.contains(&id)
+    };
+    let mut judged = 0u64;
     let mut rng = Rng::new(seed ^ 0x7715);
     let mut words: Vec<u32> = o.cards.iter().map(|c| c.w).collect();
     words.push(0);
@@ -195,6 +234,7 @@ pub fn words_history(o: &Oracle, seed: u64, rep: &Report, rounds: u64) {
         let x = sets[rng.below(sets.len() as u64) as usize];
         let which = rng.below(16);
         let w2 = words[rng.below(words.len() as u64) as usize];
+        let card_like = o.word_to_card.contains_key(&(w & o.flag_word("strip_mask")));
         let ok = guarded(|| match which {
             8 => {
                 // two-card hand from a set (C16), by the rules
@@ -234,6 +274,7 @@ pub fn words_history(o: &Oracle, seed: u64, rep: &Report, rounds: u64) {
             11 => {
                 // accessors on a card, possibly marked
                 match o.word_to_card.get(&(w & o.flag_word("strip_mask"))) {
+                    Some(_) if (id == "C10") != is_card(w) => true, // C10 speaks of cards, C20 of marked cards
                     Some(&i) => {
                         let c = &o.cards[i];
                         w.get_rank_prime() == c.prime && w.get_rank_bit() == c.rank_bit && w.get_suit_bit() == c.suit_bit
@@ -243,7 +284,8 @@ pub fn words_history(o: &Oracle, seed: u64, rep: &Report, rounds: u64) {
                     None => true,
                 }
             }
-            12 => w.flag_as_pair() == w | o.flag_word("pair") && w.flag_as_quads() == w | o.flag_word("quads") && w.flag_as_pair().flag_as_pair() == w.flag_as_pair(),
+            // marking: C20 speaks of cards (and marked cards); other words are made to go through the call, not judged
+            12 => !card_like || (w.flag_as_pair() == w | o.flag_word("pair") && w.flag_as_quads() == w | o.flag_word("quads") && w.flag_as_pair().flag_as_pair() == w.flag_as_pair()),
             13 => {
                 // construction from the members a card decodes to gives the card back
                 match o.word_to_card.get(&w) {
@@ -261,7 +303,6 @@ pub fn words_history(o: &Oracle, seed: u64, rep: &Report, rounds: u64) {
                 let anchor = if real(a) && real(b) { c == b.cmp(&a) } else if !real(a) && real(b) { c == std::cmp::Ordering::Less }
                              else if real(a) && !real(b) { c == std::cmp::Ordering::Greater } else { (c == std::cmp::Ordering::Equal) == (a == b) };
                 anchor && c == rb.cmp(&ra).reverse() && (ra == rb) == (a == b) && (ra < rb) == (c == std::cmp::Ordering::Less)
-                    && format!("{:?}", ra.name) == o.name_of(a) && format!("{:?}", ra.class) == o.class_of(a)
             }
             15 => {
                 // fold-in / has on two pool sets
@@ -292,24 +333,41 @@ pub fn words_history(o: &Oracle, seed: u64, rep: &Report, rounds: u64) {
                     true
                 }
             }
-            _ => w.strip_multiples_flags() == w & o.flag_word("strip_mask") && w.flag_as_trips() == w | o.flag_word("trips"),
+            _ => {
+                let r = w.strip_multiples_flags() == w & o.flag_word("strip_mask") && w.flag_as_trips() == w | o.flag_word("trips");
+                !card_like || r
+            }
         });
+        if !owned(which) {
+            n += 1;
+            continue;
+        }
+        judged += 1;
         if ok != Ok(true) {
             rep.violation(json!({"property": rep.property, "why": format!("in a long single-threaded interleaving of card / set calls on a recurring pool, call kind #{} on word {:#x} / set {:#x} disagreed with the specification: the result depends on the calls made before", which, w, x),
-                "event": {"op": "filter", "w": hilo(w)}, "expected": {}, "note": "history-dependent"}));
+                "event": match which {
+                    1 => json!({"op": "bc_from_ckc", "w": hilo(w)}),
+                    3 => json!({"op": "ckc_from_bc", "bc": limbs(x)}),
+                    4 => json!({"op": "bc_info", "pre": limbs(x)}),
+                    5 => json!({"op": "bc_peel", "pre": limbs(x)}),
+                    8 => json!({"op": "two_from_bc", "bc": limbs(x)}),
+                    7 | 12 => json!({"op": "flag", "w": hilo(w), "marks": ["pair"]}),
+                    11 => json!({"op": "acc", "w": hilo(w)}),
+                    _ => json!({"op": "filter", "w": hilo(w)}),
+                }, "expected": {}, "note": "history-dependent"}));
             break;
         }
         n += 1;
     }
     rep.eval(n);
-    rep.space("history probe: one thread, recurring pool of 113 words and 120 sets, random interleaving of eight card / set functions", false, n);
+    rep.space(&format!("history probe: one thread, recurring pool of 113 words and 120 sets, random interleaving of sixteen kinds of card / set call; {} of the calls fall under this property's statement and were judged", judged), false, n);
 }
 
 /// Five-slot ranking, back to back: (1) every ordered pair of the 7,462 hand classes -- a representative
 /// of the first, then a representative of the second, whose result is checked -- through the entry points
 /// in turn; (2) for every rank multiset, its suit assignments in a seeded random order (hands that share
 /// all their ranks are the natural neighbours of a coarse cache key).  One thread.
-pub fn five_pairs_history(o: &Oracle, seed: u64, rep: &Report, thorough: bool) {
+pub fn five_pairs_history(o: &Oracle, id: &str, seed: u64, rep: &Report, thorough: bool) {
     let di = |r: usize, s: usize| (3 - s) * 13 + (12 - r);
     let n = o.n_classes as usize;
     // one representative per class: flush classes in spades, others in a fixed mixed suit pattern
@@ -346,10 +404,12 @@ pub fn five_pairs_history(o: &Oracle, seed: u64, rep: &Report, thorough: bool) {
     let mut calls = 0u64;
     let mut bad = 0;
     let passes = if thorough { 4 } else { 2 };
+    // C01 speaks of the value through every entry point; C06 of the rank records (entries 1 and 3)
+    let entries: Vec<(&str, fn(&Five) -> u16)> = if id == "C06" { vec![entries[1], entries[3]] } else { entries.to_vec() };
     for (ei, (name, f)) in entries.iter().enumerate().take(passes) {
         // quick: the plain entry on all ordered pairs and the record-returning entry on every third first
         // class; thorough: all four on all ordered pairs
-        for i in (0..n).step_by(if !thorough && ei == 1 { 3 } else { 1 }) {
+        for i in (0..n).step_by(if !thorough && ei == 1 && id != "C06" { 3 } else { 1 }) {
             let first = Five::from(reps[i]);
             let row = guarded(|| {
                 let mut wrong = usize::MAX;
@@ -399,7 +459,7 @@ pub fn five_pairs_history(o: &Oracle, seed: u64, rep: &Report, thorough: bool) {
             hands.push((w, o.best_of(&idx)));
         }
         rng.shuffle(&mut hands);
-        let (name, f) = entries[(k / step) % 4];
+        let (name, f) = entries[(k / step) % entries.len()];
         let r = guarded(|| hands.iter().position(|(w, v)| f(&Five::from(*w)) != *v));
         calls += hands.len() as u64;
         fam += 1;
@@ -417,7 +477,11 @@ pub fn five_pairs_history(o: &Oracle, seed: u64, rep: &Report, thorough: bool) {
 
 /// Six / seven slots: families of sibling hands (same board, hole cards with suits swapped or re-dealt; the
 /// same cards in another order) ranked back to back through each entry point.  One thread.
-pub fn big_families_history(o: &Oracle, seed: u64, rep: &Report, rounds: u64) {
+/// What is judged depends on the property: C02 the value (every entry point) against the best five-card value;
+/// C06 the value carried by the rank records; C03 the reported hand (five distinct input cards, descending,
+/// re-ranking to the reported value); C08 the value of the shifted hand against the value of the hand (code
+/// against code); C09 the value against the smallest value of the hand's own sub-hands (code against code).
+pub fn big_families_history(o: &Oracle, id: &str, seed: u64, rep: &Report, rounds: u64) {
     let di = |r: usize, s: usize| (3 - s) * 13 + (12 - r);
     let mut rng = Rng::new(seed ^ 0xFA71);
     let mut calls = 0u64;
@@ -472,25 +536,52 @@ pub fn big_families_history(o: &Oracle, seed: u64, rep: &Report, rounds: u64) {
                 family.push(v);
             }
         }
-        let which = rng.below(5);
+        let which = match id {
+            "C06" => [1, 3][rng.below(2) as usize],
+            "C03" => 5,
+            "C08" => 6,
+            "C09" => 7,
+            _ => rng.below(5),
+        };
         for v in &family {
             let w: Vec<u32> = v.iter().map(|&i| o.cards[i].w).collect();
             let mut idx = v.clone();
             idx.sort_unstable();
-            let exp = o.best_of(&idx);
+            let mut exp = o.best_of(&idx);
             let h = Hand::from_words(&w);
             let got = guarded(|| match which {
                 0 => rank_value(&h),
                 1 => hand_rank(&h).value,
                 2 => rank_value_validated(&h),
                 3 => hand_rank_validated(&h).value,
-                _ => rank_value_and_hand(&h).value,
+                4 => rank_value_and_hand(&h).value,
+                5 => {
+                    // the reported hand: five distinct input cards, descending, worth the reported value
+                    let r = rank_value_and_hand(&h);
+                    let wit = r.witness;
+                    let ok = wit.windows(2).all(|p| p[0] > p[1]) && wit.iter().all(|c| w.contains(c)) && Five::from(wit).hand_rank_value() == r.value;
+                    if ok { exp } else { 0 }
+                }
+                6 => rank_value(&h.shift_suit()),
+                _ => rank_value(&h),
             });
+            if which == 6 {
+                exp = guarded(|| rank_value(&h)).unwrap_or(0);
+            } else if which == 7 {
+                // the smallest value among the hand's own sub-hands with one card left out
+                exp = (0..n)
+                    .map(|d| {
+                        let sub: Vec<u32> = w.iter().enumerate().filter(|(k, _)| *k != d).map(|(_, c)| *c).collect();
+                        guarded(|| rank_value(&Hand::from_words(&sub))).unwrap_or(0)
+                    })
+                    .min()
+                    .unwrap_or(0);
+            }
             calls += 1;
             if got != Ok(exp) && bad < 4 {
                 bad += 1;
-                rep.violation(json!({"property": rep.property, "why": format!("ranking sibling hands (same board, suits swapped / re-dealt, slots swapped) one after another through entry point #{}: a hand got {:?} instead of {}", which, got, exp),
-                    "event": {"op": "rankn", "words": hilo_arr(&w)}, "expected": {"value": exp}, "note": "history-dependent: replaying the single call may pass"}));
+                rep.violation(json!({"property": rep.property, "why": format!("ranking sibling hands (same board, suits swapped / re-dealt, slots swapped) one after another through entry point #{} (5: reported hand, 6: value after a shift vs before, 7: value vs the smallest of its sub-hands): a hand got {:?} instead of {}", which, got, exp),
+                    "event": {"op": "rankn", "words": hilo_arr(&w)}, "expected": if which <= 4 { json!({"value": exp}) } else { json!({}) }, "note": "history-dependent: replaying the single call may pass"}));
             }
         }
     }
@@ -592,7 +683,11 @@ fn hand_neighbours(o: &Oracle, idx: &[usize]) -> Vec<Vec<usize>> {
     out
 }
 
-pub fn repeat_then_neighbour_ranking(o: &Oracle, seed: u64, rep: &Report, thorough: bool) {
+/// What is judged depends on the property (`id`): C01 values of five-card hands; C02 values of six/seven-card
+/// hands; C06 the value carried by the rank records; C04 validated = unvalidated (code against code); C03 the
+/// reported hand; C13 the predicates of the completed five-card hand; C05 the hand with one slot still blank
+/// (returns normally; a five is 0).  The calls themselves are the same for every property.
+pub fn repeat_then_neighbour_ranking(o: &Oracle, id: &str, seed: u64, rep: &Report, thorough: bool) {
     let mut rng = Rng::new(seed ^ 0x2E9);
     let mut calls = 0u64;
     let mut bad = 0;
@@ -620,37 +715,77 @@ pub fn repeat_then_neighbour_ranking(o: &Oracle, seed: u64, rep: &Report, thorou
         rng.shuffle(&mut d);
         bases.push(d[..n].to_vec());
     }
-    for (bi, base) in bases.iter().enumerate() {
-        let which = bi % 5;
-        let f = |idx: &[usize]| -> Result<u16, String> {
-            let w: Vec<u32> = idx.iter().map(|&i| o.cards[i].w).collect();
-            let h = Hand::from_words(&w);
-            guarded(|| match which {
-                0 => rank_value(&h),
-                1 => hand_rank(&h).value,
-                2 => rank_value_validated(&h),
-                3 => hand_rank_validated(&h).value,
-                _ => rank_value_and_hand(&h).value,
-            })
-        };
-        let exp = |idx: &[usize]| -> u16 {
-            let mut s = idx.to_vec();
-            s.sort_unstable();
-            o.best_of(&s)
-        };
-        let reps = 1 + bi % 3;
-        for y in hand_neighbours(o, base) {
-            for _ in 0..reps {
-                let _ = f(base);
+    let witness_ok = |w: &[u32], h: &Hand| -> bool {
+        let r = rank_value_and_hand(h);
+        let wit = r.witness;
+        if w.len() == 5 {
+            wit.to_vec() == w
+        } else {
+            wit.windows(2).all(|p| p[0] > p[1]) && wit.iter().all(|c| w.contains(c)) && Five::from(wit).hand_rank_value() == r.value
+        }
+    };
+    let size_ok = |n: usize| -> bool {
+        match id {
+            "C01" => n == 5,
+            "C02" => n >= 6,
+            _ => true,
+        }
+    };
+    if matches!(id, "C01" | "C02" | "C03" | "C04" | "C06") {
+        for (bi, base) in bases.iter().enumerate() {
+            if !size_ok(base.len()) {
+                continue;
             }
-            calls += reps as u64 + 1;
-            let got = f(&y);
-            if got != Ok(exp(&y)) && bad < 4 {
-                bad += 1;
-                let w: Vec<u32> = y.iter().map(|&i| o.cards[i].w).collect();
-                let b: Vec<u32> = base.iter().map(|&i| o.cards[i].w).collect();
-                rep.violation(json!({"property": rep.property, "why": format!("ranking a hand {} time(s) in a row and then a neighbouring hand (one card re-suited / moved, suits or slots of two cards swapped) through entry point #{}: the neighbour got {:?} instead of {}", reps, which, got, exp(&y)),
-                    "event": {"op": if y.len() == 5 {"rank5"} else {"rankn"}, "words": hilo_arr(&w)}, "expected": {"value": exp(&y)}, "preceded_by": hilo_arr(&b), "note": "history-dependent: replaying the single call may pass"}));
+            // the entry point under test: values (0..4), or the reported hand (5); 1 = yes for the yes/no kinds
+            let which = match id {
+                "C06" => [1, 3][bi % 2],
+                "C04" => [2, 3][bi % 2],
+                "C03" => 5,
+                _ => bi % 5,
+            };
+            let f = |idx: &[usize]| -> Result<u16, String> {
+                let w: Vec<u32> = idx.iter().map(|&i| o.cards[i].w).collect();
+                let h = Hand::from_words(&w);
+                guarded(|| match which {
+                    0 => rank_value(&h),
+                    1 => hand_rank(&h).value,
+                    2 => rank_value_validated(&h),
+                    3 => hand_rank_validated(&h).value,
+                    4 => rank_value_and_hand(&h).value,
+                    _ => witness_ok(&w, &h) as u16,
+                })
+            };
+            let exp = |idx: &[usize]| -> u16 {
+                if which == 5 {
+                    return 1;
+                }
+                if id == "C04" {
+                    // the same value as unvalidated ranking (code against code), which is not 0 for a hand
+                    let w: Vec<u32> = idx.iter().map(|&i| o.cards[i].w).collect();
+                    return match guarded(|| rank_value(&Hand::from_words(&w))) {
+                        Ok(v) if v != 0 => v,
+                        _ => u16::MAX,
+                    };
+                }
+                let mut s = idx.to_vec();
+                s.sort_unstable();
+                o.best_of(&s)
+            };
+            let reps = 1 + bi % 3;
+            for y in hand_neighbours(o, base) {
+                for _ in 0..reps {
+                    let _ = f(base);
+                }
+                calls += reps as u64 + 1;
+                let got = f(&y);
+                let e = exp(&y);
+                if got != Ok(e) && bad < 4 {
+                    bad += 1;
+                    let w: Vec<u32> = y.iter().map(|&i| o.cards[i].w).collect();
+                    let b: Vec<u32> = base.iter().map(|&i| o.cards[i].w).collect();
+                    rep.violation(json!({"property": rep.property, "why": format!("ranking a hand {} time(s) in a row and then a neighbouring hand (one card re-suited / moved, suits or slots of two cards swapped) through entry point #{} (5: is the reported hand right? 1 = yes): the neighbour got {:?} instead of {}", reps, which, got, e),
+                        "event": {"op": if y.len() == 5 {"rank5"} else {"rankn"}, "words": hilo_arr(&w)}, "expected": if which <= 4 && id != "C04" { json!({"value": e}) } else { json!({}) }, "preceded_by": hilo_arr(&b), "note": "history-dependent: replaying the single call may pass"}));
+                }
             }
         }
     }
@@ -658,6 +793,9 @@ pub fn repeat_then_neighbour_ranking(o: &Oracle, seed: u64, rep: &Report, thorou
     // for five slots, the four predicates), then the completed hand
     for (bi, base) in bases.iter().enumerate() {
         let n = base.len();
+        if !size_ok(n) || (id == "C13" && n != 5) {
+            continue;
+        }
         let full: Vec<u32> = base.iter().map(|&i| o.cards[i].w).collect();
         let mut s = base.clone();
         s.sort_unstable();
@@ -668,8 +806,9 @@ pub fn repeat_then_neighbour_ranking(o: &Oracle, seed: u64, rep: &Report, thorou
             partial[a] = 0;
             let r = guarded(|| {
                 let hp = Hand::from_words(&partial);
+                let mut pv = (0u16, 0u16, 0u16);
                 for _ in 0..(1 + (bi + a) % 2) {
-                    let _ = (rank_value(&hp), rank_value_validated(&hp), hand_rank(&hp).value);
+                    pv = (rank_value(&hp), rank_value_validated(&hp), hand_rank(&hp).value);
                     if n == 5 {
                         let f = Five::from([partial[0], partial[1], partial[2], partial[3], partial[4]]);
                         let _ = (f.is_flush(), f.is_straight(), f.is_straight_flush(), f.is_wheel());
@@ -683,7 +822,8 @@ pub fn repeat_then_neighbour_ranking(o: &Oracle, seed: u64, rep: &Report, thorou
                 } else {
                     None
                 };
-                (vals, preds)
+                let wit = witness_ok(&full, &h);
+                (pv, vals, preds, wit)
             });
             calls += 12;
             let e_preds = if n == 5 {
@@ -691,17 +831,31 @@ pub fn repeat_then_neighbour_ranking(o: &Oracle, seed: u64, rep: &Report, thorou
             } else {
                 None
             };
-            if r != Ok(((exp, exp, exp, exp), e_preds)) && bad < 8 {
+            let ok = match (&r, id) {
+                (Err(_), _) => false, // something unwound on card-or-blank / valid hands: every one of these properties forbids it
+                (Ok((_, vals, _, _)), "C01") | (Ok((_, vals, _, _)), "C02") => *vals == (exp, exp, exp, exp),
+                (Ok((_, vals, _, _)), "C06") => vals.2 == exp && vals.3 == exp,
+                (Ok((_, vals, _, _)), "C04") => vals.0 != 0 && vals.1 == vals.0 && vals.3 == vals.0,
+                (Ok((_, _, _, wit)), "C03") => *wit,
+                (Ok((_, _, preds, _)), "C13") => *preds == e_preds,
+                (Ok((pv, _, _, _)), "C05") => n != 5 || *pv == (0, 0, 0),
+                _ => true,
+            };
+            if !ok && bad < 8 {
                 bad += 1;
-                rep.violation(json!({"property": rep.property, "why": "inspecting a hand with one slot still blank and then the completed hand: the completed hand's values or predicates are not those of its own cards (the result depends on the calls made before)",
+                rep.violation(json!({"property": rep.property, "why": "inspecting a hand with one slot still blank and then the completed hand: what this property says about the blank hand or about the completed hand does not hold (the result depends on the calls made before, or a call unwound)",
                     "event": {"op": if n == 5 {"rank5"} else {"rankn"}, "words": hilo_arr(&full)},
-                    "expected": if n == 5 { json!({"value": exp, "flush": cls.flush, "straight": e_preds.unwrap().1, "straight_flush": e_preds.unwrap().2, "wheel": e_preds.unwrap().3}) } else { json!({"value": exp}) },
+                    "expected": match id {
+                        "C13" => json!({"flush": cls.flush, "straight": e_preds.unwrap().1, "straight_flush": e_preds.unwrap().2, "wheel": e_preds.unwrap().3}),
+                        "C01" | "C02" | "C06" => json!({"value": exp}),
+                        _ => json!({}),
+                    },
                     "preceded_by": hilo_arr(&partial), "note": "history-dependent: replaying the single call may pass"}));
             }
         }
     }
     rep.eval(calls);
-    rep.space("history probe: each base hand ranked 1-3 times in a row, then each of its natural neighbours, per entry point; and each base hand with one slot blank, then completed", false, calls);
+    rep.space("history probe: each base hand ranked 1-3 times in a row, then each of its natural neighbours, per entry point; and each base hand with one slot blank, then completed (judged as far as this property's statement goes)", false, calls);
 }
 
 pub fn repeat_then_neighbour_misc(o: &Oracle, id: &str, _seed: u64, rep: &Report) {
@@ -762,8 +916,14 @@ pub fn repeat_then_neighbour_misc(o: &Oracle, id: &str, _seed: u64, rep: &Report
                 let ec = if cards == 0 { 0 } else { 1u64 << (63 - cards.leading_zeros()) };
                 let ok = match &r {
                     Ok((c, y, after, c2, z, back)) => {
-                        *c == ec && *y == x & !ec && *c2 == ec && *z == x & !ec && *back == ec
-                            && after[0] == word_of(x) && after[1] == word_of(*y) && after[2] == word_of(ec) && after[3] == word_of(x)
+                        if id == "C15" {
+                            // the peels (C15)
+                            *c == ec && *y == x & !ec && *c2 == ec && *z == x & !ec
+                        } else {
+                            // the conversions of whatever the peels returned (C14)
+                            *back == (if word_of(*c) != 0 { *c } else { 0 })
+                                && after[0] == word_of(x) && after[1] == word_of(*y) && after[2] == word_of(*c) && after[3] == word_of(x)
+                        }
                     }
                     Err(_) => false,
                 };
@@ -825,11 +985,19 @@ pub fn repeat_then_neighbour_misc(o: &Oracle, id: &str, _seed: u64, rep: &Report
                             // reach the neighbour through the setters of the same container
                             t.set_first(ca.w);
                             t.set_second(cb.w);
-                            (t.chen_formula() as i32, t.get_gap(), t.is_suited())
+                            (t.chen_formula() as i32, t.get_gap(), t.is_suited(), t.to_arr())
                         });
                         calls += reps as u64 + 1;
+                        // judged against the two cards the container really holds (storing them is C19's business)
+                        let (ca, cb) = match &r {
+                            Ok((_, _, _, arr)) => match (o.word_to_card.get(&arr[0]), o.word_to_card.get(&arr[1])) {
+                                (Some(&i), Some(&j)) if i != j => (&o.cards[i], &o.cards[j]),
+                                _ => continue,
+                            },
+                            Err(_) => (ca, cb),
+                        };
                         let e = o.chen[&(ca.rank, cb.rank, ca.suit == cb.suit)];
-                        if r != Ok((e.0, e.1, ca.suit == cb.suit)) {
+                        if r.as_ref().map(|x| (x.0, x.1, x.2)) != Ok((e.0, e.1, ca.suit == cb.suit)) {
                             fail("scoring a two-card hand (possibly more than once) and then a hand that differs in one card's suit or in slot order: the second score is not the Chen formula of its own cards", json!({"op":"chen","a":hilo(ca.w),"b":hilo(cb.w)}), json!({"score": e.0, "gap": e.1}));
                             return;
                         }
@@ -921,6 +1089,45 @@ pub fn repeat_then_neighbour_misc(o: &Oracle, id: &str, _seed: u64, rep: &Report
     }
     rep.eval(calls);
     rep.space("history probe: repeat a call, then a naturally related input (see harness/src/props/history.rs)", false, calls);
+}
+
+/// C07's counterpart of `conversion_neighbours`: every value converted 1-3 times in a row, then each single-bit
+/// neighbour (and the complement) converted and COMPARED with freshly converted anchors -- only what C07 says
+/// about comparisons is judged (what the names and classes are belongs to C06).  One thread.
+pub fn conversion_then_compare(o: &Oracle, rep: &Report) {
+    use std::cmp::Ordering as O;
+    let real = |v: u16| v >= 1 && v <= o.n_classes;
+    let mut calls = 0u64;
+    for v in 0..=65535u32 {
+        let v = v as u16;
+        let reps = 1 + (v % 3) as usize;
+        for k in 0..17 {
+            let y = if k == 16 { !v } else { v ^ (1 << k) };
+            let r = guarded(|| {
+                for _ in 0..reps {
+                    let _ = HandRank::from(v);
+                }
+                let ry = HandRank::from(y);
+                let mut ok = ry == HandRank::from(y) && ry.cmp(&HandRank::from(y)) == O::Equal;
+                for a in [0u16, 1, 166, o.n_classes, o.n_classes + 1, 65535] {
+                    let ra = HandRank::from(a);
+                    let c = ry.cmp(&ra);
+                    let anchor = if real(y) && real(a) { c == a.cmp(&y) } else if !real(y) && real(a) { c == O::Less }
+                                 else if real(y) && !real(a) { c == O::Greater } else { (c == O::Equal) == (y == a) };
+                    ok = ok && anchor && ra.cmp(&ry) == c.reverse() && (ry == ra) == (y == a) && (ry < ra) == (c == O::Less) && (ry >= ra) == (c != O::Less);
+                }
+                ok
+            });
+            calls += reps as u64 + 14;
+            if r != Ok(true) {
+                rep.violation(json!({"property": rep.property, "why": format!("converting {} {} time(s) in a row and then {}: comparing the second rank with freshly converted ranks is not lawful (the result depends on the calls made before)", v, reps, y),
+                    "event": {"op": "cmp", "a": y, "b": 1}, "expected": {"lawful": true}, "note": "history-dependent: replaying the single call may pass"}));
+                return;
+            }
+        }
+    }
+    rep.eval(calls);
+    rep.space("history probe: every 16-bit value converted 1-3 times in a row, then each single-bit neighbour and the complement compared with six freshly converted anchors", true, calls);
 }
 
 /// Conversions value -> hand rank: every value converted once, twice or three times in a row, then each of its
